@@ -4,7 +4,7 @@ package fs
 
 import "syscall"
 
-type Stat syscall.Stat_t
+type Stat = syscall.Stat_t
 
 func NewStat(
 	uid uint32,
